@@ -88,8 +88,78 @@ def ptr_universe(rng, cap, fam):
     return [8 * (r + i * c) + rng.randrange(8) for i in range(6)]
 
 
+# the integer key types by letter: (bits, signed);  hash(T v) = (usize)v = the value modulo 2^64
+INT_TYPES = {'b': (8, True), 'B': (8, False), 'h': (16, True), 'H': (16, False), 'i': (32, True), 'u': (32, False),
+             'l': (64, True), 'q': (64, False)}
+ALL_KEY_TYPES = ['b', 'B', 'h', 'H', 'i', 'u', 'l', 'q', 'p', 's']
+
+
+def bucket_of(v, cap):
+    return (v % (1 << 64)) % max(cap, 1)
+
+
+def type_range(kt):
+    bits, signed = INT_TYPES[kt]
+    return (-(1 << (bits - 1)), (1 << (bits - 1)) - 1) if signed else (0, (1 << bits) - 1)
+
+
+def colliding_keys(kt, cap, n, anchor=None, rng=None):
+    """n keys of the integer type kt that fall into ONE bucket of a table of `cap` cells under hash = (usize)v, negative and
+    positive ones alternating for the signed types (a negative key is sign-extended: its bucket is (2^64 - |v|) mod cap, not
+    -|v| mod cap).  Fewer than n when the type has not that many values in the bucket (int8 with 500 cells)."""
+    lo, hi = type_range(kt)
+    c = max(cap, 1)
+    if anchor is None:
+        anchor = -1 if lo < 0 else hi
+    b = bucket_of(anchor, c)
+    if hi - lo < (1 << 17):
+        cand = [v for v in range(lo, hi + 1) if bucket_of(v, c) == b]
+    else:
+        # v = b + m*c for the non-negative ones; for the negative ones (2^64 + v) mod c == b
+        span = (hi - b) // c
+        ms = sorted(set([0, 1, 2, span, span - 1, span // 2, span // 3] + ([rng.randrange(span + 1) for _ in range(n)] if rng else [])))
+        cand = [b + m * c for m in ms if 0 <= b + m * c <= hi]
+        if lo < 0:
+            r = (b - (1 << 64)) % c          # v = r - k*c is negative and (2^64 + v) mod c == b
+            nspan = (r - lo) // c
+            ks = sorted(set([1, 2, 3, nspan, nspan - 1, nspan // 2] + ([rng.randrange(1, nspan + 1) for _ in range(n)] if rng else [])))
+            cand += [r - k * c for k in ks if lo <= r - k * c < 0]
+    cand = [v for v in dict.fromkeys(cand) if bucket_of(v, c) == b and lo <= v <= hi]
+    neg = [v for v in cand if v < 0]
+    pos = [v for v in cand if v >= 0]
+    if rng:
+        rng.shuffle(neg)
+        rng.shuffle(pos)
+    else:
+        neg.sort(key=lambda v: -v)
+    out = []
+    while (neg or pos) and len(out) < n:
+        if neg:
+            out.append(neg.pop(0))
+        if pos and len(out) < n:
+            out.append(pos.pop(0))
+    return out
+
+
+def small_int_universe(rng, kt, cap, fam):
+    """int8 / uint8 / int16 / uint16 / uint64"""
+    lo, hi = type_range(kt)
+    c = max(cap, 1)
+    if fam == 0:      # the ends of the range and the neighbourhood of zero
+        return list(dict.fromkeys([lo, hi, 0, 1, lo + 1, hi - 1, (hi + 1) // 2, -1 if lo < 0 else hi // 2 + 1, c if c <= hi else 2]))[:rng.randrange(5, 10)]
+    if fam == 1:      # one bucket, mixed signs
+        ks = colliding_keys(kt, c, rng.randrange(4, 9), anchor=rng.choice([lo, hi, 0, -1 if lo < 0 else 1]), rng=rng)
+        return ks if len(ks) >= 3 else ks + [lo, hi, 0]
+    if fam == 2:      # same residue as mathematical integers, mixed signs: near-collisions (a negative key is sign-extended)
+        r = rng.randrange(c)
+        return [v for v in dict.fromkeys([r, r + c, r + 2 * c, r - c, r - 2 * c, r - 3 * c, hi - (hi - r) % c]) if lo <= v <= hi] + [lo]
+    return [rng.randrange(lo, hi + 1) for _ in range(rng.randrange(3, 9))] + [rng.choice([lo, hi])]
+
+
 def universe(rng, kt, cap, fam=None):
     fam = rng.randrange(5) if fam is None else fam
+    if kt in ('b', 'B', 'h', 'H', 'q'):
+        return [str(k) for k in dict.fromkeys(small_int_universe(rng, kt, cap, fam % 4))]
     if kt == 'i':
         return [str(k) for k in int_universe(rng, cap, fam)]
     if kt == 'l':
@@ -119,10 +189,10 @@ def allowed(kd, name):
 PROFILES = {
     # name: weight
     'mixed': dict(app=10, pre=5, ins=8, find=5, has=3, rmk=6, rmi=5, rmv=4, rmf=2, rmb=2, clear=1, swap=2, front=1, back=1,
-                  copy=1, assign=2, eq=3, appall=2, rmall=2, setv=3, new=1, newd=0.5),
-    'collide': dict(app=10, pre=4, ins=8, find=4, rmk=8, rmi=8, rmv=6, rmf=2, rmb=2, clear=0.5, swap=1, eq=1, assign=0.5, setv=2, appall=1, rmall=1),
-    'multi': dict(app=8, ins=3, rmk=3, rmi=2, swap=6, copy=4, assign=5, eq=8, appall=5, rmall=5, clear=2, new=2, newd=1, find=2, setv=2, pre=2),
-    'pool': dict(app=12, ins=3, rmk=6, rmi=5, rmv=4, rmf=3, rmb=3, clear=3, swap=1, assign=1, find=1),
+                  copy=1, assign=2, eq=3, appall=2, rmall=2, setv=3, new=1, newd=0.5, fwd=1.5, bwd=4),
+    'collide': dict(app=10, pre=4, ins=8, find=4, rmk=8, rmi=8, rmv=6, rmf=2, rmb=2, clear=0.5, swap=1, eq=1, assign=0.5, setv=2, appall=1, rmall=1, fwd=1, bwd=4),
+    'multi': dict(app=8, ins=3, rmk=3, rmi=2, swap=6, copy=4, assign=5, eq=8, appall=5, rmall=5, clear=2, new=2, newd=1, find=2, setv=2, pre=2, fwd=1, bwd=5),
+    'pool': dict(app=12, ins=3, rmk=6, rmi=5, rmv=4, rmf=3, rmb=3, clear=3, swap=1, assign=1, find=1, bwd=2),
 }
 
 
@@ -186,6 +256,8 @@ def gen_ops(rng, kd, kt, nv, sizes_hint, uni, nops, profile, bad=0.0):
             ops.append('%s %d' % (o, x))
             if x < nv and n and o in ('rmf', 'rmb'):
                 del keys[x][list(keys[x].keys())[0 if o == 'rmf' else -1]]
+        elif o in ('fwd', 'bwd'):
+            ops.append('%s %d' % (o, x))
         elif o == 'clear':
             ops.append('clear %d' % x)
             if x < nv:
@@ -223,6 +295,14 @@ def gen_ops(rng, kd, kt, nv, sizes_hint, uni, nops, profile, bad=0.0):
     return ops
 
 
+def traverse(nv):
+    """every variable is traversed backwards (operator--) and forwards (operator++) through iterators"""
+    out = []
+    for x in range(nv):
+        out += ['bwd %d' % x, 'fwd %d' % x]
+    return out
+
+
 def probe(nv, uni):
     """find every key of the universe in every variable + front/back"""
     out = []
@@ -239,11 +319,12 @@ class C02(Check):
     harness_sources = ['harness/hash.cpp']
     technique = ('machine-checked proof in Coq about a hand-written Gallina model; model tied to the code by an '
                  'extracted-model vs implementation correspondence check')
-    level_text = ('Theorems in Coq (29, all closed under the global context), for every key type with decidable equality, EVERY '
+    level_text = ('Theorems in Coq (34, all closed under the global context), for every key type with decidable equality, EVERY '
                   'hash function (Section variable: all keys in one bucket is an instance), every list of capacities and every '
-                  'history over several container variables and all 22 operations (construct, find, contains, positional insert, '
+                  'history over several container variables and all 24 operations (construct, find, contains, positional insert, '
                   'append, prepend, remove by key / iterator / value, removeFront/Back, clear, swap, front/back, copy, assignment, '
-                  '==, bulk append/remove, write through the iterator): the model of HashMap/HashSet/PoolMap (bucket chains + '
+                  '==, bulk append/remove, write through the iterator, traversal through iterators forwards from begin() and '
+                  'backwards from end()): the model of HashMap/HashSet/PoolMap (bucket chains + '
                   'insertion-order list + the two links around the end sentinel + free-item list) keeps the invariant "every listed '
                   'key is in bucket hash mod capacity exactly once, chains hold only listed keys, sizes agree, endItem.prev '
                   'designates the last item" (C02_invariant_init/_step/_reachable) and produces exactly the results (returned '
@@ -256,43 +337,66 @@ class C02(Check):
                   'variable x runs into the sentinel of x (C02_sentinel_reachable). Inserting a present key keeps rank and all '
                   'other entries and replaces the value for HashMap (C02_insert_present_hashmap) and returns the table unchanged '
                   'for HashSet/PoolMap (C02_insert_present_set_pool_untouched). Node recycling: live items and free list partition '
-                  'the 4*blocks allocated items in every reachable state (C02_pool_reachable). The model is tied to the code by '
+                  'the 4*blocks allocated items in every reachable state (C02_pool_reachable). Backward traversal is modelled '
+                  'as the code does it - start at the end sentinel, follow prev pointers (endItem.prev, then the prev pointer of '
+                  'each item, items identified by the address = slot the pointer holds), stop when _begin.item is met - and proved '
+                  'to visit exactly the reverse of the forward order for every table that satisfies the invariant and in every '
+                  'reachable state (C02_iter_back_is_rev_forward, C02_iter_back_reachable, C02_walk_back_from_rank, '
+                  'C02_iter_step_results; the proof uses endItem.prev = last item and that no two live items share a slot, '
+                  'C02_full_invariant_step carries chains + sentinel link + node recycling through every step). The model is tied to the code by '
                   'running the extracted model, the extracted reference and the ASan/UBSan build of the working tree on the same '
                   'histories and comparing, after every operation, the result, the public state of every variable, and the '
                   'internals read through an access override: capacity, data!=0, bucket index and chain order of every key, cell '
                   'back-pointers, prev links, slot (block, index) of every item, free list, number of blocks, the item endItem.prev '
                   'designates and the variable whose sentinel the list runs into. front()/back() are called through the non-const '
-                  'and the const overloads (same object required).')
+                  'and the const overloads (same object required). The traversal operations make every step twice - through '
+                  'the non-const operator++/-- and through the const operator of the same name on a const copy - and read every '
+                  'item through operator*, operator* const, operator-> and operator-> const (same object required, token '
+                  'CONSTMISMATCH otherwise); Iterator() is default-constructed, compared and assigned.')
     level_note = ('Trusted: Coq kernel, the reference object (HashSpec.v, 130 lines), extraction + OCaml driver, harness. The '
                   'theorems are about the model; that the model mirrors the C++ is validated by correspondence only (differential, '
-                  'incl. the concrete hash functions: (usize)v for int32/int64/uint32, address >> 3 for const void*, the String '
-                  'hash; the other integer overloads of hash() are only checked textually to be `return (usize)v;`). The default '
-                  'capacity 500, the String-hash multiplier and the pointer-hash shift are regenerated from the headers on every '
-                  'run (Gen_Hash.v). The order list is a Coq list: prev/next pointers between items are not modelled (the harness '
-                  'checks them against the iteration on every dump); of the pointer structure only endItem.prev and the sentinel a '
-                  'list ends in are explicit, swap moves a list as a whole and re-targets these two. That a call compiles for a '
+                  'incl. the concrete hash functions: (usize)v = the key value modulo 2^64 (sign extension for negative keys) for '
+                  'all eight integer overloads int8..uint64, address >> 3 for const void*, the String hash). The default capacity '
+                  '500, the String-hash multiplier and the pointer-hash shift (Gen_Hash.v), and width and signedness of the eight '
+                  'integer key types as the typedefs of Base.hpp give them (Gen_HashKeys.v) are regenerated from the headers on '
+                  'every run; the bodies of hash(intN) are checked textually to be `return (usize)v;`, usize is the 64-bit type of '
+                  'the x86-64 build (asserted in the harness). The order list is a Coq list: the items are not heap cells; the '
+                  'prev pointer of the item at rank r+1 is BY REPRESENTATION the item at rank r (null at rank 0) and the chain of '
+                  'next pointers IS the list - so the forward traversal is the list by definition and only the backward one has '
+                  'content (it starts from the explicit field endItem.prev and looks items up by slot); the harness checks every '
+                  'prev link against the iteration on every dump. Of the pointer structure only endItem.prev and the sentinel a '
+                  'list ends in are explicit, swap moves a list as a whole and re-targets these two. C02_step_refines now carries '
+                  'the premise "no two live items of a table share a slot" (used by the backward traversal only; part of pool_ok, '
+                  'which C02_pool_step preserves); the whole-history theorem C02_refines_ordered_map is unconditional as before. '
+                  'Iterators are used for complete traversals and as positions named by rank; decrementing begin() / '
+                  'incrementing or dereferencing end() (null pointer / sentinel value) is outside the API and not driven. That a call compiles for a '
                   'key/value type is outside the model: two groups of calls (const front()/back() of HashMap<String,int> and '
                   'PoolMap<K,Val>; removeBack() with const void* keys) are probed with g++ -fsyntax-only and reported as a failure '
                   'with the compiler message when ill-formed. API preconditions (position <= size, rank < size, non-empty for '
                   'front/back/removeFront/removeBack, capacity >= 0) are modelled as "call not made". Key equality is assumed to '
-                  'be a decidable Leibniz equality (true of the five key types; equal String keys are presented through '
+                  'be a decidable Leibniz equality (true of the ten key types; equal String keys are presented through '
                   'differently stored String objects: heap, default-constructed, attached slices). x = x: model and code carry '
                   'the self-assignment guard (fixes/C02/01); self-assignment histories are generated when the tree carries the '
                   'guard or with VERIF_C02_SELF_ASSIGN=1. Value type int / default-constructed 77 for PoolMap; element '
                   'construction/destruction counts belong to C04. After 400 crashes (or 60 watchdog timeouts of 2 s) of the implementation in one run the remaining '
                   'cases are not run.')
     rule = ('case = history of up to ~70 operations over 1-3 container variables of one kind (HashMap<K,int>, HashSet<K>, '
-            'PoolMap<K,Val>), K in {int32,int64,uint32,const void*,String}, capacities from {0,1,2,3,7,64,500} (independently per '
+            'PoolMap<K,Val>), K in {int8,uint8,int16,uint16,int32,uint32,int64,uint64,const void*,String} (integer universes '
+            'contain the ends of the range, negative keys and keys colliding in one bucket under the sign-extending hash), most '
+            'random histories end with a backward and a forward traversal of every variable; capacities from {0,1,2,3,7,64,500} (independently per '
             'variable, so swaps between tables of different capacities are frequent); streams: mixed, collide (capacity '
             '1..7 with keys that are multiples of the capacity / Strings equal at the three hashed positions / addresses inside '
             'one 8-byte word), multi (swap/copy/assign/==/bulk), pool (node recycling), malformed (precondition violations), '
-            'boundary (hand-written; incl. the empty String key met by every operation through every String storage), targeted '
+            'boundary (hand-written; incl. the empty String key met by every operation through every String storage), iterate '
+            '(traversal both ways on empty / one-element tables, after each removal method at front / middle / back, after '
+            'clear, swap, copy, assignment; 3 kinds x 10 key types x capacities 1, 7, 500), targeted '
             '(every chain position x every removal method; swap of tables of sizes 0..3 then use of both; order/value/prefix-'
             'sensitive ==; present key at every position for every insert flavour), exhaustive (all histories of length <= 3 '
-            '(quick) / 4 (thorough) over a 13..17-op alphabet, capacities 1 and 2). A case is non-trivial when the '
+            '(quick) / 4 (thorough) over a 14..18-op alphabet incl. the backward traversal, capacities 1 and 2, each followed by '
+            'a traversal of both variables). A case is non-trivial when the '
             'implementation showed a bucket chain of length >= 2 and the history unlinks something (remove*/clear/assign/swap/'
             'bulk remove) and has >= 5 operations; distinct = distinct op text')
-    assumptions = ['key equality decides Leibniz equality (int32, int64, uint32, const void*, String)',
+    assumptions = ['key equality decides Leibniz equality (int8..uint64, const void*, String)',
                    'API preconditions hold (violating calls are not made): position <= size, rank < size, non-empty for '
                    'front/back/removeFront/removeBack',
                    'x = x: model and code carry the self-assignment guard',
@@ -317,7 +421,8 @@ class C02(Check):
     def gen_tables(self):
         # default capacity of the constructors, multiplier of hash(const String&), shift of hash(const void*);
         # the bodies of hash(intN) are checked to be `return (usize)v;`
-        return [tables.gen_hash()]
+        # Gen_HashKeys.v: width and signedness of the eight integer key types (typedefs of Base.hpp)
+        return [tables.gen_hash(), tables.gen_hash_keys()]
 
     def build(self):
         import subprocess
@@ -426,22 +531,30 @@ class C02(Check):
                 ops = gen_ops(rng, kd, kt, nv, None, uni, rng.randrange(*nops), profile, bad)
                 if rng.random() < probe_p:
                     ops += probe(nv, uni)
+                if ops and rng.random() < 0.7:
+                    ops += traverse(nv)
                 if ops:
                     cases.append([header(kd, kt, caps)] + ops)
             return cases
 
-        out.append(Stream('mixed', rand_cases(900 * mul, 'mixed', ['i', 's', 'u', 'l', 's', 'p']),
+        out.append(Stream('mixed', rand_cases(1100 * mul, 'mixed', ['i', 's', 'u', 'l', 's', 'p', 'b', 'q', 'h', 'B', 'H']),
                           note='mostly valid random histories, all kinds/key types, capacities {1,2,3,7,64,500}'))
-        out.append(Stream('collide', rand_cases(700 * mul, 'collide', ['i', 's', 'l', 'p', 'u'], capsets=[1, 1, 2, 3, 7], fams=[1, 3, 0, 2],
+        out.append(Stream('collide', rand_cases(900 * mul, 'collide', ['i', 's', 'l', 'p', 'u', 'b', 'h', 'q', 'B', 'H'], capsets=[1, 1, 2, 3, 7], fams=[1, 3, 0, 2],
                                                 nops=(12, 45)),
                           note='long chains: capacity 1..7, keys that are multiples of the capacity / share the hashed characters'))
-        out.append(Stream('multi', rand_cases(500 * mul, 'multi', ['i', 's', 'p']),
+        out.append(Stream('multi', rand_cases(500 * mul, 'multi', ['i', 's', 'p', 'b', 'q']),
                           note='several variables: swap, copy, assignment, ==, bulk append/remove'))
         out.append(Stream('pool', rand_cases(300 * mul, 'pool', ['i', 's'], nops=(20, 70), probe_p=0.1),
                           note='node recycling: more than one block, LIFO free list, clear then reuse'))
         out.append(Stream('malformed', rand_cases(300 * mul, 'mixed', ['i', 's'], bad=0.25, nops=(5, 25)),
                           note='precondition violations (bad variable, position > size, rank >= size, empty container): not executed, state unchanged'))
         out.append(Stream('boundary', self.boundary_cases(rng), note='hand-written boundary histories'))
+        out.append(Stream('iterate', self.iterate_cases(),
+                          note='traversal through iterators in both directions (operator++ / operator--, const and non-const forms, '
+                               'operator* / operator->, Iterator()): empty table, one element, after every kind of removal at the '
+                               'front / middle / back, after clear and re-insertion, after swap with empty and non-empty tables, after '
+                               'copy / assignment; all ten key types with keys that collide in one bucket (negative keys of the signed '
+                               'types are sign-extended by hash()), capacities 1 (one chain), 7, 500'))
         out.append(Stream('targeted', self.targeted_cases(rng, thorough),
                           note='case splits of the proofs: every chain position x every removal method, then the chain neighbours; '
                                'swap of tables of sizes 0..3 followed by use of both; order/value/prefix-sensitive ==; present key '
@@ -451,7 +564,8 @@ class C02(Check):
                               note='x = x; generated when VERIF_C02_SELF_ASSIGN=1 or when operator= of HashMap and HashSet '
                                    'carries a self-assignment guard (the unguarded operator= is the C04 finding)'))
         out.append(Stream('exhaustive', self.exhaustive_cases(4 if thorough else 3), exhaustive=True,
-                          note='every history of length <= %d over a 13-op alphabet, 2 variables, capacities 1 and 2, keys {0,1,2}' % (4 if thorough else 3)))
+                          note='every history of length <= %d over a 14..18-op alphabet (incl. the backward traversal), 2 variables, capacities 1 and 2, '
+                               'keys {0,1,2}; each followed by a traversal of both variables' % (4 if thorough else 3)))
         return out
 
     def boundary_cases(self, rng):
@@ -509,14 +623,83 @@ class C02(Check):
                                  'app 0 %s %s' % (many[1], v(7)), 'clear 0'] + ['pre 0 %s %s' % (k, v(i)) for i, k in enumerate(many)] + ['rmi 0 8', 'rmi 0 0'])
         return cases
 
+    def iterate_cases(self):
+        cases = []
+        strs = [hexs([0x61, 0x41 + i, 0x62, 0x41 + 3 * i, 0x63]) for i in range(8)]      # equal at positions 0, len/2, len-1
+        for kd in KINDS:
+            v = (lambda n: str(n)) if kd != 'hs' else (lambda n: '0')
+            for kt in ALL_KEY_TYPES:
+                for cap in (1, 7, 500):
+                    if kt == 's':
+                        keys = strs[:6] + ['-', hexs([0xff])]
+                    elif kt == 'p':
+                        keys = [str(8 * cap * i + (i % 8)) for i in range(1, 7)] + ['0', str((1 << 47) + 5)]
+                    else:
+                        lo, hi = type_range(kt)
+                        keys = colliding_keys(kt, cap, 6)
+                        keys = [str(k) for k in dict.fromkeys(keys + [lo, hi, 0, 1, hi - 1, lo + 1, 2, 3, 4, 5, 6, 7])][:8]
+                    k = keys
+                    h = '@%s %s %d %d' % (kd, kt, cap, 1 if cap != 1 else 7)
+                    both = ['bwd 0', 'fwd 0']
+                    app = lambda x, i: 'app %d %s %s' % (x, k[i], v(i + 1))
+                    # empty tables: never used / emptied by every kind of removal / cleared
+                    cases.append([h] + both + ['bwd 1', 'fwd 1', 'swap 0 1'] + both + ['clear 0'] + both)
+                    for rm in ('rmk 0 ' + k[0], 'rmi 0 0', 'rmf 0', 'rmb 0', 'clear 0') + (('rmv 0 0',) if kd == 'pm' else ()):
+                        # one element; emptied; refilled (slot reuse)
+                        cases.append([h, app(0, 0)] + both + [rm] + both + [app(0, 1)] + both + [app(0, 0)] + both)
+                    base = [app(0, i) for i in range(5)]
+                    cases.append([h] + base + both)
+                    # removal at the front / in the middle / at the back by every method, then traversal both ways
+                    for r in (0, 2, 4):
+                        meths = ['rmk 0 ' + k[r], 'rmi 0 %d' % r]
+                        if kd == 'pm':
+                            meths.append('rmv 0 %d' % r)
+                        if r == 0:
+                            meths.append('rmf 0')
+                        if r == 4:
+                            meths.append('rmb 0')
+                        for m in meths:
+                            cases.append([h] + base + [m] + both + [app(0, 5)] + both + ['rmb 0', 'rmf 0'] + both)
+                    # two removals next to each other (the successor's prev link was written by the first one)
+                    for r in (0, 1, 3):
+                        cases.append([h] + base + ['rmi 0 %d' % r, 'rmi 0 %d' % r] + both + ['rmi 0 %d' % max(r - 1, 0)] + both)
+                    # insertion at the front / middle / end of a list, present key
+                    for pos in (0, 2, 5):
+                        cases.append([h] + base + ['ins 0 %d %s %s' % (pos, k[5], v(9))] + both + ['ins 0 %d %s %s' % (pos, k[2], v(8))] + both)
+                    if kd != 'pm':
+                        cases.append([h] + base[:2] + ['pre 0 %s %s' % (k[5], v(6)), 'pre 0 %s %s' % (k[6], v(7))] + both)
+                    # clear, then refill in another order
+                    cases.append([h] + base + ['clear 0'] + both + [app(0, 3), app(0, 1), app(0, 4)] + both)
+                    # swap with an empty table, with a non-empty one, with itself; both sides traversed
+                    cases.append([h] + base + ['swap 0 1', 'bwd 0', 'bwd 1', 'fwd 1', app(0, 6), 'swap 0 1', 'bwd 0', 'bwd 1', 'fwd 0', 'swap 0 0'] + both +
+                                 ['rmb 0', 'rmb 1', 'bwd 0', 'bwd 1'])
+                    cases.append([h] + base[:3] + [app(1, 5), app(1, 6), 'swap 1 0', 'bwd 0', 'bwd 1', 'rmf 0', 'rmb 1', 'bwd 0', 'bwd 1', 'fwd 0', 'fwd 1'])
+                    if kd != 'pm':
+                        cases.append([h] + base + [app(1, 6), 'copy 1 0', 'bwd 1', 'assign 0 1', 'bwd 0', 'rmk 1 ' + k[1], 'assign 0 1', 'bwd 0', 'fwd 0', 'eq 0 1'])
+                    if kd == 'hs':
+                        cases.append([h] + base + [app(1, 6), app(1, 2), 'appall 0 1', 'bwd 0', 'rmall 0 1', 'bwd 0', 'fwd 0'])
+                    # more than one block of items, every second removed
+                    many = base + [app(0, 5), app(0, 6), app(0, 7)]
+                    cases.append([h] + many + both + ['rmi 0 1', 'rmi 0 2', 'rmi 0 3'] + both + ['clear 0'] + many[::-1] + both)
+        return cases
+
     def targeted_cases(self, rng, thorough):
         cases = []
         strs = [hexs([0x61, 0x41 + i, 0x62, 0x41 + 3 * i, 0x63]) for i in range(8)]      # equal at positions 0, len/2, len-1
         for kd in KINDS:
             v = (lambda n: str(n)) if kd != 'hs' else (lambda n: '0')
-            for kt in ('i', 's', 'l'):
+            for kt in ('i', 's', 'l', 'h', 'q'):
                 for cap in ((1, 3, 7) if not thorough else (1, 2, 3, 7, 64)):
-                    if kt == 'i':
+                    if kt == 'h':
+                        # int16, one bucket, negative and positive keys alternating (sign extension: (2^64 - |k|) mod cap)
+                        keys = [str(k) for k in colliding_keys('h', cap, 6, anchor=2)]
+                        other = [str(2 + 100 * cap + 1)]
+                    elif kt == 'q':
+                        # uint64, one bucket, spread over the whole range up to 2^64 - 1
+                        top = ((1 << 64) - 3) // cap - 1
+                        keys = [str(2 + cap * (top * i // 5)) for i in range(6)]
+                        other = [str(3 + cap * (1 << 40))]
+                    elif kt == 'i':
                         keys = [str(2 + i * cap) for i in range(6)]
                         other = [str(2 + 100 * cap + 1)]                        # a neighbouring bucket (the same one for capacity 1)
                     elif kt == 'l':
@@ -545,7 +728,7 @@ class C02(Check):
                                     tail.append('rmk 0 ' + keys[j - 1])          # chain successor
                                 tail += ['find 0 ' + k for k in keys[:n]] + ['app 0 %s %s' % (keys[j], v(50)), 'find 0 ' + keys[j],
                                          'rmf 0', 'rmk 0 ' + keys[j], 'find 0 ' + keys[0], 'find 0 ' + keys[n - 1]]
-                                cases.append([h] + build + [m] + tail)
+                                cases.append([h] + build + [m, 'bwd 0'] + tail + ['bwd 0', 'fwd 0'])
                         # removeFront when the front is the chain tail (oldest)
                         cases.append([h] + build[1:] + ['rmf 0', 'rmf 0'] + ['find 0 ' + k for k in keys[:n]] + ['rmb 0', 'clear 0',
                                      'find 0 ' + keys[0], 'app 0 %s %s' % (keys[0], v(1)), 'find 0 ' + keys[0]])
@@ -555,11 +738,11 @@ class C02(Check):
                         for n in range(4):
                             a = ['app 0 %s %s' % (k, v(i)) for i, k in enumerate(keys[:m])]
                             b = ['app 1 %s %s' % (k, v(10 + i)) for i, k in enumerate(reversed(keys[6 - n:]))] if n else []
-                            use = ['swap 0 1', 'back 0', 'back 1', 'app 0 %s %s' % (other[0], v(7)), 'app 1 %s %s' % (other[0], v(8)),
+                            use = ['swap 0 1', 'bwd 0', 'bwd 1', 'back 0', 'back 1', 'app 0 %s %s' % (other[0], v(7)), 'app 1 %s %s' % (other[0], v(8)),
                                    'find 0 ' + keys[5], 'find 1 ' + keys[0], 'rmb 0', 'rmb 1', 'rmb 0', 'rmb 1', 'rmf 0', 'rmf 1',
                                    'ins 0 0 %s %s' % (keys[1], v(3)), 'ins 1 0 %s %s' % (keys[1], v(4)), 'swap 1 0', 'swap 0 0',
                                    'app 0 %s %s' % (keys[2], v(5)), 'clear 1', 'app 1 %s %s' % (keys[3], v(6)), 'swap 0 1',
-                                   'rmb 0', 'rmb 1', 'front 0', 'front 1']
+                                   'rmb 0', 'rmb 1', 'front 0', 'front 1', 'bwd 0', 'bwd 1', 'fwd 0', 'fwd 1']
                             if kd != 'pm':
                                 use += ['eq 0 1', 'assign 0 1', 'eq 0 1', 'eq 1 0']
                             cases.append([h] + a + b + use)
@@ -621,7 +804,7 @@ class C02(Check):
         for kd in KINDS:
             v = '0' if kd == 'hs' else '5'
             alpha = ['app 0 0 ' + v, 'app 0 1 ' + v, 'app 0 2 ' + v, 'ins 0 0 2 ' + ('0' if kd == 'hs' else '6'), 'ins 0 1 1 ' + ('0' if kd == 'hs' else '7'),
-                     'rmk 0 0', 'rmk 0 2', 'rmi 0 0', 'rmi 0 1', 'rmb 0', 'clear 0', 'swap 0 1', 'find 0 2']
+                     'rmk 0 0', 'rmk 0 2', 'rmi 0 0', 'rmi 0 1', 'rmb 0', 'clear 0', 'swap 0 1', 'find 0 2', 'bwd 0']
             if kd != 'pm':
                 alpha += ['assign 1 0', 'eq 0 1']
             if kd == 'hs':
@@ -631,7 +814,8 @@ class C02(Check):
                 pre = ['app 1 2 ' + v, 'app 1 0 ' + v]
                 for n in range(1, depth + 1):
                     for seq in itertools.product(alpha, repeat=n):
-                        cases.append([h] + pre + list(seq))
+                        # every history ends with a backward and a forward traversal of both variables
+                        cases.append([h] + pre + list(seq) + (['bwd 0', 'bwd 1', 'fwd 0'] if seq[-1] != 'bwd 0' else ['bwd 1', 'fwd 0']))
         return cases
 
 
